@@ -245,7 +245,7 @@ pub fn run(rep: &mut Report) {
         a
     };
     super::run_corpus(rep, replay);
-    let g = tier.pick(100_000, 1_200_000);
+    let g = tier.pick(200_000, 1_200_000);
     section::<P8E0>(rep, g);
     section::<P16E1>(rep, g);
     section::<P32E2>(rep, g);
